@@ -240,3 +240,11 @@ func init() {
 		return nil
 	}
 }
+
+func init() {
+	// vxBigWidth(w): width of bv-mode big integers for this harness (before any vxBig)
+	vxAPI["vxBigWidth"] = func(ex *Exec, fr *Frame, fn *ssa.Function, args []Value, site ssa.Instruction) Value {
+		ex.bigW = argInt(ex, args[0])
+		return nil
+	}
+}
